@@ -364,12 +364,14 @@ package memberlist
 //@   ensures refuse-short [C14]: len(msg) > 0 && len(msg) < 29 ==> result1 != nil
 //@   ensures refuse-nokeys [C14]: len(keys) == 0 ==> result1 != nil
 //@   loop #1 invariant same [C12]: len(msg) >= 29
+//@   loop #1 invariant kept [C12,C14]: forall i int :: 0 <= i && i < len(msg) ==> msg[i] == old(msg[i])
 //@   at call encryptedLength: set $tried := zeromap()
 //@   at call encryptedLength: set $opened := false
 //@   at call decryptMessage: set $tried := upd($tried, arr(arg0), 1)
 //@   at call decryptMessage: set $opened := $opened || res1 == nil
 //@   loop #1 invariant tried [C14,C17]: !$opened && (forall i int :: 0 <= i && i <= rangeindex && i < len(keys) ==> $tried[arr(keys[i])] == 1)
 //@   ensures tries-every-key [C14,C17]: result1 != nil && !$opened && len(msg) >= 1 && old(msg[0]) <= 1 && len(msg) >= encLen(old(msg[0]), 0) ==> (forall i int :: 0 <= i && i < len(keys) ==> $tried[arr(keys[i])] == 1)     // "no installed key opens it" is said only after every installed key was tried
+//@   ensures input-preserved [C12,C14]: forall i int :: 0 <= i && i < len(msg) ==> msg[i] == old(msg[i])     // a failed (or successful) attempt leaves the received bytes as they were: the caller may still treat them as plaintext, and the next key must see the same ciphertext
 //@   ensures plain-size-v1 [C12]: result1 == nil && old(msg[0]) == 1 ==> len(result0) == len(msg) - 29
 //@   ensures plain-size-v0 [C12]: result1 == nil && old(msg[0]) == 0 ==> len(result0) <= len(msg) - 29 && len(result0) >= len(msg) - 29 - 255
 
@@ -386,6 +388,7 @@ package memberlist
 //@   modular
 //@   requires len: len(msg) >= 29
 //@   ensures plain-size [C12]: result1 == nil ==> len(result0) == len(msg) - 29     // version byte, nonce and tag removed
+//@   ensures input-preserved [C12,C14]: forall i int :: 0 <= i && i < len(msg) ==> msg[i] == old(msg[i])
 
 // ackLock: every registered handler is a live object with an ack callback and a reaping timer.
 //@ lock Memberlist.ackLock recv m
